@@ -274,6 +274,9 @@ def blk_density():
     hits = [n for n in ast.walk(fn) if isinstance(n, ast.Assign) and ast.unparse(n.targets[0]) == "densities"]
     if len(hits) != 2:
         raise Untranslatable("density: expected two assignments to densities")
+    # the volume must be the determinant of the cell vectors (Trajectory.unitcell_volumes), not e.g. a product of lengths
+    if ast.unparse(_find_assign(fn, "volume_trace")) != "traj.unitcell_volumes":
+        raise Untranslatable("density: volume_trace = %s" % ast.unparse(_find_assign(fn, "volume_trace")))
     d1 = py_to_q(hits[0].value, text, {"mass": "mass", "volume_trace": "volume"})
     d2 = py_to_q(hits[1].value, text, {"densities": "(%s)" % d1, "conversion": "density_conversion"})
     return ["(* mdtraj/geometry/thermodynamic_properties.py:density *)",
@@ -612,6 +615,200 @@ Definition all_same_chain : bool := true.
 """
 
 
+# ---- option handling: keywords, accepted scheme names, signature defaults (contact.py, rdf.py, order.py) --------
+def _defaults(fn, text):
+    """{argument name: default value node} of a FunctionDef"""
+    a = fn.args
+    names = [x.arg for x in a.args]
+    out = {}
+    for nm, d in zip(names[len(names) - len(a.defaults):], a.defaults):
+        out[nm] = d
+    return out
+
+
+def _const_of(node, kind):
+    if not isinstance(node, ast.Constant) or not isinstance(node.value, kind) or (kind is not bool and isinstance(node.value, bool)):
+        raise Untranslatable("default %s is not a %s constant" % (ast.unparse(node), kind.__name__))
+    return node.value
+
+
+def _keyword_tests(fn, var):
+    """constants a string argument is compared with: `var.lower() ==/!= "k"` or `var ==/!= "k"` -> ([k...], lowered?)"""
+    ks, low = [], set()
+    for n in ast.walk(fn):
+        if isinstance(n, ast.Compare) and len(n.ops) == 1 and isinstance(n.ops[0], (ast.Eq, ast.NotEq)) \
+                and isinstance(n.comparators[0], ast.Constant) and isinstance(n.comparators[0].value, str):
+            l = ast.unparse(n.left)
+            if l == "%s.lower()" % var:
+                ks.append(n.comparators[0].value)
+                low.add(True)
+            elif l == var:
+                ks.append(n.comparators[0].value)
+                low.add(False)
+    return ks, low
+
+
+def build_options():
+    text = _src("mdtraj/geometry/contact.py")
+    fn = _find_func(ast.parse(text), "compute_contacts")
+    d = _defaults(fn, text)
+    # contacts keyword
+    ks, low = _keyword_tests(fn, "contacts")
+    if len(set(ks)) != 1:
+        raise Untranslatable("contacts keyword tests: %s" % ks)
+    if low != {True}:
+        raise Untranslatable("contacts keyword is not compared case-insensitively")
+    # scheme = scheme.lower(); if scheme not in [...]
+    lowered = any(isinstance(n, ast.Assign) and ast.unparse(n.targets[0]) == "scheme" and ast.unparse(n.value) == "scheme.lower()"
+                  for n in fn.body)
+    names = None
+    for n in fn.body:
+        if isinstance(n, ast.If) and isinstance(n.test, ast.Compare) and ast.unparse(n.test.left) == "scheme" \
+                and len(n.test.ops) == 1 and isinstance(n.test.ops[0], ast.NotIn) \
+                and isinstance(n.test.comparators[0], (ast.List, ast.Tuple, ast.Set)) \
+                and any(isinstance(x, ast.Raise) for x in n.body):
+            names = [_const_of(e, str) for e in n.test.comparators[0].elts]
+    if names is None:
+        raise Untranslatable("`if scheme not in [...]: raise` not found")
+    # the statement order topology -> contacts -> scheme (error precedence) is tied by the correspondence
+    lines = ["(* GENERATED by harness/props/C16.py:translate from /repo -- do not edit. *)",
+             "From Coq Require Import String List ZArith QArith.", "Import ListNotations.",
+             "Require Import MD.Desc.DipoleModel.", "",
+             "(* mdtraj/geometry/contact.py:compute_contacts *)",
+             "Definition src_scheme_names : list string := %s." % clist([cstr(x) for x in names]),
+             "Definition src_scheme_lowered : bool := %s." % cbool(lowered),
+             "Definition src_contacts_keyword : string := %s." % cstr(ks[0]),
+             "Definition dflt_contacts : string := %s." % cstr(_const_of(d["contacts"], str)),
+             "Definition dflt_scheme : string := %s." % cstr(_const_of(d["scheme"], str)),
+             "Definition dflt_ignore_nonprotein : bool := %s." % cbool(_const_of(d["ignore_nonprotein"], bool)),
+             "Definition dflt_periodic : bool := %s." % cbool(_const_of(d["periodic"], bool)),
+             "Definition dflt_soft_min : bool := %s." % cbool(_const_of(d["soft_min"], bool)), ""]
+    # rdf.py: both functions must agree on the shared defaults
+    text = _src("mdtraj/geometry/rdf.py")
+    tree = ast.parse(text)
+    vals = []
+    for name in ("compute_rdf", "compute_rdf_t"):
+        fn = _find_func(tree, name)
+        d = _defaults(fn, text)
+        if _const_of(d["r_range"], type(None)) is not None or _const_of(d["n_bins"], type(None)) is not None:
+            raise Untranslatable("%s: r_range/n_bins defaults" % name)
+        rr = None
+        for n in ast.walk(fn):
+            if isinstance(n, ast.If) and ast.unparse(n.test) == "r_range is None" and len(n.body) == 1 \
+                    and isinstance(n.body[0], ast.Assign) and ast.unparse(n.body[0].targets[0]) == "r_range":
+                v = n.body[0].value
+                if isinstance(v, ast.Call) and ast.unparse(v.func) == "np.array" and isinstance(v.args[0], (ast.List, ast.Tuple)) \
+                        and len(v.args[0].elts) == 2:
+                    rr = tuple(_const_fraction(e, text) for e in v.args[0].elts)
+        if rr is None:
+            raise Untranslatable("%s: default r_range" % name)
+        thr = [ast.unparse(n.test) for n in ast.walk(fn) if isinstance(n, ast.If) and "n_bins" in ast.unparse(n.test)
+               and any(isinstance(x, ast.Raise) for x in n.body)]
+        if thr != ["n_bins <= 0"]:
+            raise Untranslatable("%s: n_bins refusal test %s" % (name, thr))
+        bw = Fraction(float(_const_of(d["bin_width"], float)))      # the double Python uses
+        vals.append((rr, bw, _const_of(d["periodic"], bool)))
+    if vals[0] != vals[1]:
+        raise Untranslatable("compute_rdf and compute_rdf_t disagree on defaults")
+    fn = _find_func(tree, "compute_rdf_t")
+    d = _defaults(fn, text)
+    lines += ["(* mdtraj/geometry/rdf.py:compute_rdf, compute_rdf_t (n_bins <= 0 is refused) *)",
+              "Definition dflt_r_range : Q * Q := (%s, %s)." % (qlit(vals[0][0][0]), qlit(vals[0][0][1])),
+              "(* the default bin_width as the double Python uses *)",
+              "Definition dflt_bin_width : Q := %s." % qlit(vals[0][1]),
+              "Definition dflt_self_correlation : bool := %s." % cbool(_const_of(d["self_correlation"], bool)),
+              "Definition dflt_n_concurrent_pairs : Z := (%d)%%Z." % _const_of(d["n_concurrent_pairs"], int), ""]
+    # order.py
+    text = _src("mdtraj/geometry/order.py")
+    tree = ast.parse(text)
+    ks, low = _keyword_tests(_find_func(tree, "_get_indices"), "indices")
+    if len(ks) != 2 or low != {True}:
+        raise Untranslatable("_get_indices keywords %s lowered %s" % (ks, sorted(low)))
+    fn = _find_func(tree, "_get_indices")
+    grp = {}
+    for n in ast.walk(fn):
+        if isinstance(n, ast.If) and isinstance(n.test, ast.Compare) and ast.unparse(n.test.left) == "indices.lower()":
+            for st in n.body:
+                if isinstance(st, ast.Assign) and ast.unparse(st.targets[0]) == "group":
+                    grp[n.test.comparators[0].value] = ast.unparse(st.value)
+    inv = {v: k for k, v in grp.items()}
+    if sorted(inv) != ["list(traj.top.chains)", "list(traj.top.residues)"] or sorted(grp) != sorted(ks):
+        raise Untranslatable("_get_indices groups %s" % grp)
+    dd = [_const_of(_defaults(_find_func(tree, f), text)["indices"], str) for f in ("compute_nematic_order", "compute_directors")]
+    if dd[0] != dd[1]:
+        raise Untranslatable("order.py: default indices differ")
+    lines += ["(* mdtraj/geometry/order.py:_get_indices (keywords compared after .lower()) *)",
+              "Definition src_order_chains : string := %s." % cstr(inv["list(traj.top.chains)"]),
+              "Definition src_order_residues : string := %s." % cstr(inv["list(traj.top.residues)"]),
+              "Definition dflt_order_indices : string := %s." % cstr(dd[0]), ""]
+    # thermodynamic_properties.py:dipole_moments: index-pair tables
+    text = _src("mdtraj/geometry/thermodynamic_properties.py")
+    fn = _find_func(ast.parse(text), "dipole_moments")
+    terms = {"0": "DZero", "a.residue.atom(0).index": "DAnchor", "a.index": "DSelf"}
+    tabs = {}
+    for nm in ("local_indices", "molecule_indices"):
+        v = _find_assign(fn, nm)
+        if not (isinstance(v, ast.Call) and ast.unparse(v.func) == "np.array" and isinstance(v.args[0], ast.ListComp)):
+            raise Untranslatable("dipole_moments: %s" % nm)
+        lc = v.args[0]
+        if len(lc.generators) != 1 or lc.generators[0].ifs or ast.unparse(lc.generators[0].target) != "a" \
+                or ast.unparse(lc.generators[0].iter) not in ("traj.top.atoms", "traj.topology.atoms") \
+                or not isinstance(lc.elt, ast.Tuple) or len(lc.elt.elts) != 2:
+            raise Untranslatable("dipole_moments: comprehension of %s" % nm)
+        try:
+            tabs[nm] = tuple(terms[ast.unparse(e)] for e in lc.elt.elts)
+        except KeyError as e:
+            raise Untranslatable("dipole_moments: index expression %s" % e)
+    per = {}
+    for nm, tab in (("local_displacements", "local_indices"), ("molecule_displacements", "molecule_indices")):
+        v = _find_assign(fn, nm)
+        if not (isinstance(v, ast.Call) and ast.unparse(v.func) in ("md.compute_displacements", "compute_displacements")
+                and [ast.unparse(a) for a in v.args] == ["traj", tab]):
+            raise Untranslatable("dipole_moments: %s" % nm)
+        kw = {k.arg: k.value for k in v.keywords}
+        if set(kw) - {"periodic"}:
+            raise Untranslatable("dipole_moments: unexpected keyword in %s" % nm)
+        per[nm] = _const_of(kw["periodic"], bool) if "periodic" in kw else True
+    if ast.unparse(_find_assign(fn, "xyz")) != "local_displacements + molecule_displacements" or \
+            ast.unparse(_find_assign(fn, "moments")) != "xyz.transpose(0, 2, 1).dot(charges)":
+        raise Untranslatable("dipole_moments: combination of the displacements")
+    lines += ["(* mdtraj/geometry/thermodynamic_properties.py:dipole_moments: the two index-pair tables and their periodic flags *)",
+              "Definition src_dipole_local : dip_idx * dip_idx := (%s, %s)." % tabs["local_indices"],
+              "Definition src_dipole_molecule : dip_idx * dip_idx := (%s, %s)." % tabs["molecule_indices"],
+              "Definition src_dipole_periodic : bool * bool := (%s, %s)." % (cbool(per["local_displacements"]),
+                                                                           cbool(per["molecule_displacements"])), ""]
+    return "\n".join(lines)
+
+
+REFERENCE_OPTIONS = """(* reference copy (contact.py, rdf.py, order.py of the pinned tree) *)
+From Coq Require Import String List ZArith QArith.
+Import ListNotations.
+Require Import MD.Desc.DipoleModel.
+
+Definition src_scheme_names : list string := ["ca"%string; "closest"%string; "closest-heavy"%string; "sidechain"%string; "sidechain-heavy"%string].
+Definition src_scheme_lowered : bool := true.
+Definition src_contacts_keyword : string := "all"%string.
+Definition dflt_contacts : string := "all"%string.
+Definition dflt_scheme : string := "closest-heavy"%string.
+Definition dflt_ignore_nonprotein : bool := true.
+Definition dflt_periodic : bool := true.
+Definition dflt_soft_min : bool := false.
+
+Definition dflt_r_range : Q * Q := ((Qmake (0) 1), (Qmake (1) 1)).
+Definition dflt_bin_width : Q := (Qmake (5764607523034235) 1152921504606846976).
+Definition dflt_self_correlation : bool := true.
+Definition dflt_n_concurrent_pairs : Z := (100000)%Z.
+
+Definition src_order_chains : string := "chains"%string.
+Definition src_order_residues : string := "residues"%string.
+Definition dflt_order_indices : string := "chains"%string.
+
+Definition src_dipole_local : dip_idx * dip_idx := (DAnchor, DSelf).
+Definition src_dipole_molecule : dip_idx * dip_idx := (DZero, DAnchor).
+Definition src_dipole_periodic : bool * bool := (true, true).
+"""
+
+
 def build_formulas_r():
     """the Karplus relation once more over R (for the trigonometric form of the theorem)"""
     text = _src("mdtraj/nmr/scalar_couplings.py")
@@ -644,11 +841,16 @@ def translate(ctx):
         degraded.append("contact schemes: %s" % e)
         ctx.write_gen("Gen/DescSchemes.v", REFERENCE_SCHEMES)
     try:
+        ctx.write_gen("Gen/DescOptions.v", build_options())
+    except (Untranslatable, OSError, SyntaxError, AttributeError, KeyError) as e:
+        degraded.append("option keywords/defaults: %s" % e)
+        ctx.write_gen("Gen/DescOptions.v", REFERENCE_OPTIONS)
+    try:
         ctx.write_gen("Gen/DescTables.v", build_tables())
     except (Untranslatable, OSError, SyntaxError, AttributeError) as e:
         degraded.append("tables (previous Gen/DescTables.v kept): %s" % e)
     ctx.notes.setdefault("coverage_extra", {})["translator"] = (
-        "ok: Gen/DescTables.v, Gen/DescSchemes.v, Gen/DescFormulas.v, Gen/DescFormulasR.v regenerated" if not degraded
+        "ok: Gen/DescTables.v, Gen/DescSchemes.v, Gen/DescOptions.v, Gen/DescFormulas.v, Gen/DescFormulasR.v regenerated" if not degraded
         else "degraded, reference copy used for: " + "; ".join(degraded))
     if degraded:
         raise Untranslatable("; ".join(degraded))
@@ -1290,7 +1492,15 @@ def check_shape(ctx, cases, results):
 def gen_density_case(rng):
     c = gen_geom_case(rng, "density")
     nf = len(c["xyz"])
-    c["box"] = [gen_box(rng, 64, 400) for _ in range(nf)] if rng.random() < 0.5 else gen_box(rng, 64, 400)
+    r = rng.random()
+    if r < 0.25:
+        c["box"] = gen_box(rng, 64, 400)
+    elif r < 0.5:
+        c["box"] = [gen_box(rng, 64, 400) for _ in range(nf)]
+    elif r < 0.7:       # one triclinic cell (standard orientation, on the grid) for all frames
+        c["box"] = gen_tri_box(rng, lo=rng.choice([40, 200]), hi=400)
+    else:               # a different triclinic cell in every frame
+        c["box"] = {"tri_frames": [gen_tri_box(rng, lo=rng.choice([40, 200]), hi=400)["tri"] for _ in range(nf)]}
     c["masses"] = [dyadic(rng, 1, 400, 16) for _ in range(top_natoms(c["top"]))] if rng.random() < 0.5 else None
     return c
 
@@ -1300,31 +1510,41 @@ def box_per_frame(c):
     return b if isinstance(b[0], list) else [b] * len(c["xyz"])
 
 
+def cells_per_frame(c):
+    """cell vectors (rows a, b, c in grid units) of every frame"""
+    b = c["box"]
+    if isinstance(b, dict):
+        return b["tri_frames"] if "tri_frames" in b else [b["tri"]] * len(c["xyz"])
+    return [[[l[0], 0, 0], [0, l[1], 0], [0, 0, l[2]]] for l in box_per_frame(c)]
+
+
 def check_density(ctx, cases, results):
     sym_in, mass_in, si, mi = [], [], [], []
     for i, (c, r) in enumerate(zip(cases, results)):
-        ctx.count(c, nontrivial=True, bucket="density/%s" % ("masses" if c["masses"] else "elements"))
+        ctx.count(c, nontrivial=True, bucket="density/%s/%s" % ("masses" if c["masses"] else "elements",
+                                                                  "triclinic" if isinstance(c["box"], dict) else "orthorhombic"))
         v = r["density"]
         if isinstance(v, dict) or not finite(v):
             ctx.fail("density fails or returns non-finite values", c, observed=v, expected="finite",
                      tags={"kind": "density", "explained_by": None})
             continue
-        vols = clist([cqf(Fraction(b[0] * b[1] * b[2], c["unit"] ** 3)) for b in box_per_frame(c)])
+        cells = clist(["(%s, %s, %s)" % tuple(c_vec(x) for x in cell) for cell in cells_per_frame(c)])
         exp = clist([cq(x) for x in v])
         if c["masses"]:
             mi.append(i)
-            mass_in.append(("(%s, %s, %s)" % (cqf("2e-6"), clist([cq(m) for m in c["masses"]]), vols), exp))
+            mass_in.append(("(%s, %s, %s, %s)" % (cqf("2e-6"), cz(c["unit"]), clist([cq(m) for m in c["masses"]]), cells), exp))
         else:
             si.append(i)
-            sym_in.append(("(%s, %s, %s)" % (cqf("2e-6"), clist([cstr(x) for x in atom_syms(c["top"])]), vols), exp))
-    for fn, ty, inp, ix in (("run_density", "Q * list Q * list Q", mass_in, mi),
-                            ("run_density_sym", "Q * list string * list Q", sym_in, si)):
-        bad, errs = ctx.coq_mismatches(["MD.Desc.AlgebraModel"], (ty, "list Q"), "close_res_rel", fn, inp, shard=shard_for(len(inp), lo=4), prelude=QPRE)
+            sym_in.append(("(%s, %s, %s, %s)" % (cqf("2e-6"), cz(c["unit"]), clist([cstr(x) for x in atom_syms(c["top"])]), cells), exp))
+    for fn, ty, inp, ix in (("run_density_cells", "Q * Z * list Q * list cellz", mass_in, mi),
+                            ("run_density_cells_sym", "Q * Z * list string * list cellz", sym_in, si)):
+        bad, errs = ctx.coq_mismatches(["MD.Desc.AlgebraModel", "MD.Desc.DensityModel"], (ty, "list Q"), "close_res_rel", fn, inp,
+                                       shard=shard_for(len(inp), lo=4), prelude=QPRE)
         if errs:
             ctx.break_("correspondence:coqc-evaluation(density)", "\n".join(errs))
             continue
         for k in bad:
-            ctx.fail("density differs from total mass / cell volume * 1.66053878 (kg/m^3 per Da/nm^3)", cases[ix[k]],
+            ctx.fail("density differs from total mass / cell volume a.(b x c) * 1.66053878 (kg/m^3 per Da/nm^3)", cases[ix[k]],
                      observed=results[ix[k]], expected="Coq %s" % fn, tags={"kind": "density", "explained_by": None})
 
 
@@ -1771,6 +1991,430 @@ def check_rdf_t(ctx, cases, results):
 
 
 # =====================================================================================
+# option handling and index bookkeeping in front of the kernels (FrontModel.v, DipoleModel.v)
+# =====================================================================================
+FRONT_ERR = [(r"requires a topology", "FNoTop"), (r"not a valid contacts specifier", "FBadSpec"),
+             (r"contacts must be ndim 2", "FNdim"), (r"contacts must be shape", "FShape"),
+             (r"inhomogeneous", "FRagged"), (r"scheme must be one of", "FBadScheme")]
+
+
+def _case_variant(rng, s):
+    return rng.choice([s, s.upper(), s.capitalize(), "".join(ch.upper() if rng.random() < 0.5 else ch for ch in s)])
+
+
+def gen_contacts_opt_case(rng, i):
+    n_res = rng.randint(4, 8)
+    top = gen_topology(rng, n_res, p_odd=rng.choice([0.0, 0.3]))
+    na = top_natoms(top)
+    case = {"kind": "contacts_opt", "top": top, "unit": UNIT, "xyz": gen_xyz(rng, rng.randint(1, 2), na),
+            "box": gen_box(rng) if rng.random() < 0.5 else None, "has_top": rng.random() > 0.08}
+    # contacts argument
+    def good_pairs(k=None):
+        return [[rng.randrange(n_res), rng.randrange(n_res)] for _ in range(k or rng.randint(1, 4))]
+    r = rng.random()
+    if r < 0.12:
+        case["contacts"] = None                                   # omitted: 'all'
+    elif r < 0.30:
+        case["contacts"] = {"str": _case_variant(rng, "all")}
+    elif r < 0.38:
+        case["contacts"] = {"str": rng.choice(["any", "", "all ", "al", "ca", "none", "ALLL"])}
+    elif r < 0.52:
+        case["contacts"] = {"list": good_pairs()}
+    elif r < 0.60:
+        case["contacts"] = {"tuple": good_pairs()}
+    elif r < 0.68:
+        prs = good_pairs()
+        case["contacts"] = {"array": prs, "shape": [len(prs), 2]}
+    elif r < 0.74:
+        case["contacts"] = {"list": [rng.randrange(n_res) for _ in range(rng.choice([0, 2, 3]))]}      # 1-D (also [])
+    elif r < 0.80:
+        m = rng.choice([1, 3, 4])
+        case["contacts"] = {"list": [[rng.randrange(n_res) for _ in range(m)] for _ in range(rng.randint(1, 3))]}
+    elif r < 0.85:
+        prs = good_pairs(rng.randint(2, 3))
+        prs[rng.randrange(1, len(prs))] = [rng.randrange(n_res) for _ in range(rng.choice([1, 3]))]  # ragged
+        case["contacts"] = {"list": prs}
+    elif r < 0.88:
+        case["contacts"] = {"list": [[good_pairs(1)[0]]]}          # 3-D
+    elif r < 0.92:
+        case["contacts"] = {"array": [], "shape": [0, rng.choice([2, 2, 3])]}
+    else:
+        prs = good_pairs()
+        prs[rng.randrange(len(prs))][rng.randrange(2)] = rng.choice([-1, n_res, n_res + 3])
+        case["contacts"] = {"list": prs}
+    # scheme argument
+    r = rng.random()
+    if r < 0.15:
+        case["scheme"] = None
+    elif r < 0.75:
+        case["scheme"] = _case_variant(rng, rng.choice(SCHEMES))
+    else:
+        case["scheme"] = rng.choice(["bogus", "ca ", "closest_heavy", "", "heavy", "sidechain-", "CLOSEST HEAVY"])
+    case["ignore_nonprotein"] = rng.choice([None, None, True, False])
+    case["periodic"] = rng.choice([None, True, False])
+    # soft_min only where it does not change the value (scheme 'ca'): passed to see that it is accepted
+    case["soft_min"] = True if (case["scheme"] and case["scheme"].lower() == "ca" and rng.random() < 0.5) else None
+    return case
+
+
+def c_pyarr(spec):
+    """the `contacts` / `residue_pairs` argument as FrontModel.pyarr"""
+    if "array" in spec:
+        rows = spec["array"]
+        if len(spec["shape"]) != 2:
+            return "A3" if len(spec["shape"]) > 2 else "(A1 %s)" % clist([cz(x) for x in rows])
+        return "(A2 %s %s)" % (cnat(spec["shape"][1]), clist([clist([cz(x) for x in r]) for r in rows]))
+    rows = spec.get("list", spec.get("tuple"))
+    if not rows or not isinstance(rows[0], list):
+        return "(A1 %s)" % clist([cz(x) for x in rows])
+    if any(isinstance(x, list) for r in rows for x in r):
+        return "A3"
+    return "(A2 %s %s)" % (cnat(len(rows[0])), clist([clist([cz(x) for x in r]) for r in rows]))
+
+
+def c_copts(case):
+    c = case.get("contacts")
+    if c is None:
+        ci = "None"
+    elif "str" in c:
+        ci = "(Some (IStr %s))" % cstr(c["str"])
+    else:
+        ci = "(Some (IArr %s))" % c_pyarr(c)
+    return "(mkCopts %s %s %s %s %s %s)" % (
+        cbool(case.get("has_top", True)), ci, copt(case.get("scheme"), cstr), copt(case.get("ignore_nonprotein"), cbool),
+        copt(case.get("periodic"), cbool), copt(case.get("soft_min"), cbool))
+
+
+def front_expected(res):
+    if "err" in res:
+        for pat, name in FRONT_ERR:
+            if re.search(pat, res["msg"]):
+                return "(FErr %s)" % name
+        for pat, name in ERRCODES:
+            if re.search(pat, res["msg"]):
+                return "(FErr (FCore %s))" % name
+        return None
+    return "(FOk %s %s)" % (c_pairs_nat(res["pairs"]), clist([clist([cz(v) for v in row]) for row in res["d2"]]))
+
+
+def check_contacts_opt(ctx, cases, results):
+    coq, idx = [], []
+    for i, (c, r) in enumerate(zip(cases, results)):
+        what = "omitted" if c.get("contacts") is None else ("keyword" if "str" in c["contacts"] else "array")
+        ctx.count(c, nontrivial=True, bucket="contacts_opt/%s/%s" % (what, "scheme-omitted" if c.get("scheme") is None else "scheme"))
+        if "err" not in r and r["resid"] > 1e-5:
+            ctx.break_("correspondence:contacts-exactness", "squared distance not recovered exactly on %s" % json.dumps(c)[:300])
+            continue
+        exp = front_expected(r)
+        if exp is None:
+            ctx.fail("compute_contacts raises an unexpected %s for these arguments" % r["err"], c, observed=r,
+                     expected="a result or one of the documented refusals", tags={"kind": "contacts_opt", "explained_by": None})
+            continue
+        idx.append(i)
+        coq.append(("(false, %s, %s, %s, %s)" % (c_raw_top(c["top"]), c_copts(c), c_cell(c["box"]), c_frames(c["xyz"])), exp))
+    bad, errs = ctx.coq_mismatches(["MD.Desc.ContactsModel", "MD.Desc.FrontModel"], ("fcase", "fres"), "fres_eqb",
+                                   "run_contacts_api", coq, shard=shard_for(len(coq), lo=12))
+    if errs:
+        ctx.break_("correspondence:coqc-evaluation(contacts options)", "\n".join(errs))
+        return
+    for k in bad:
+        c, r = cases[idx[k]], results[idx[k]]
+        ctx.fail("compute_contacts: argument handling (keyword/array/scheme spelling, defaults, order of refusals) or the "
+                 "result differs from the model", c, observed=r, expected="Coq run_contacts_api",
+                 tags={"kind": "contacts_opt", "explained_by": None})
+
+
+SQ_ERR = [(r"must be ndim 2", "SNdim"), (r"must be shape", "SShape"), (r"inhomogeneous", "SRagged"),
+          (r"not in the permitted range", "SNegative"), (r"does not match the number of pairs", "SMismatch"),
+          (r"zero-size array", "SEmpty")]
+
+
+def gen_squareform_opt_case(rng, i):
+    n = rng.randint(2, 6)
+    k = rng.randint(1, 7)
+    seen, pairs = set(), []
+    for _ in range(k):
+        p = (rng.randrange(n), rng.randrange(n))
+        if p in seen:
+            continue                      # numpy gives no order guarantee for a label repeated in one assignment
+        if (p[1], p[0]) in seen and rng.random() < 0.3:
+            continue
+        seen.add(p)
+        pairs.append(list(p))
+        if rng.random() < 0.35 and (p[1], p[0]) not in seen:
+            seen.add((p[1], p[0]))
+            pairs.append([p[1], p[0]])    # the same pair reversed: the second assignment decides
+    rng.shuffle(pairs)
+    nf = rng.randint(1, 2)
+    ncols = len(pairs)
+    spec = {"list": pairs} if rng.random() < 0.5 else {"array": pairs, "shape": [len(pairs), 2]}
+    r = rng.random()
+    if r < 0.08:
+        ncols = max(0, len(pairs) + rng.choice([-1, 1, 2]))
+    elif r < 0.16:
+        q = [list(x) for x in pairs]
+        q[rng.randrange(len(q))][rng.randrange(2)] = -rng.randint(1, 3)
+        spec = {"list": q}
+        if rng.random() < 0.4:
+            ncols += 1                    # two refusals at once: the sign test comes first
+    elif r < 0.21:
+        spec = {"list": [x + [0] for x in pairs]}
+    elif r < 0.25:
+        spec = {"list": [x[0] for x in pairs]}
+    elif r < 0.29:
+        spec = {"array": [], "shape": [0, 2]}
+        ncols = rng.choice([0, 0, 1])
+    d = [[rng.randint(1, 999) for _ in range(ncols)] for _ in range(nf)]
+    if i % 20 == 7:      # distances that are not 2-D: documented refusal ValueError("distances must be a 2d array")
+        return {"kind": "squareform_opt", "d": d[0], "d_shape": [ncols], "pairs": {"list": pairs}}
+    return {"kind": "squareform_opt", "d": d, "d_shape": [nf, ncols], "pairs": spec}
+
+
+def check_squareform_opt(ctx, cases, results):
+    coq, idx = [], []
+    for i, (c, r) in enumerate(zip(cases, results)):
+        if len(c["d_shape"]) != 2:
+            ctx.count(c, nontrivial=True, bucket="squareform_opt/distances-not-2d")
+            if "err" in r and r["err"] == "ValueError" and re.search(r"2d array", r["msg"]):
+                continue
+            ctx.fail("squareform: distances that are not a 2-D array are not refused with ValueError('distances must be a 2d array')",
+                     c, observed=r, expected="ValueError: distances must be a 2d array",
+                     tags={"kind": "squareform_opt",
+                           "explained_by": "squareform_ndim_test_cur" if r.get("err") in ("IndexError", "AttributeError") else None})
+            continue
+        ctx.count(c, nontrivial=c["d_shape"][1] > 1, bucket="squareform_opt")
+        if "err" in r:
+            exp = next(("(SErr %s)" % name for pat, name in SQ_ERR if re.search(pat, r["msg"])), None)
+            if exp is None:
+                ctx.fail("squareform raises an unexpected %s" % r["err"], c, observed=r, expected="maps or a documented refusal",
+                         tags={"kind": "squareform_opt", "explained_by": None})
+                continue
+        else:
+            if not r["exact"]:
+                ctx.break_("correspondence:squareform-exactness", "non-integer entries")
+                continue
+            exp = "(SOk %s)" % clist([clist([clist([cz(x) for x in row]) for row in m]) for m in r["m"]])
+        idx.append(i)
+        coq.append(("(%s, %s, %s)" % (cnat(c["d_shape"][1]), clist([clist([cz(x) for x in row]) for row in c["d"]]),
+                                     c_pyarr(c["pairs"])), exp))
+    bad, errs = ctx.coq_mismatches(["MD.Desc.ContactsModel", "MD.Desc.FrontModel"], ("nat * list (list Z) * pyarr", "sres"),
+                                   "sres_eqb", "run_squareform_api", coq, shard=shard_for(len(coq), lo=30))
+    if errs:
+        ctx.break_("correspondence:coqc-evaluation(squareform options)", "\n".join(errs))
+        return
+    for k in bad:
+        ctx.fail("squareform: argument checks, map size or entries differ from the labelled distances (reversed labels: the "
+                 "second assignment decides)", cases[idx[k]], observed=results[idx[k]], expected="Coq run_squareform_api",
+                 tags={"kind": "squareform_opt", "explained_by": None})
+
+
+# a non-positive bin count derived from bin_width is refused by np.histogram (compute_rdf) or, when negative, already by the
+# allocation of the result array (compute_rdf_t): both are the refusal "bin count not positive"
+RDF_ERR = [(r"`n_bins` must be a positive integer", 1), (r"`bins` must be positive", 2), (r"negative dimensions are not allowed", 2),
+           (r"r_range must be shape", 3),
+           (r"max must be larger than min", 4)]
+
+
+def gen_rdf_opt_case(rng, i):
+    two = [["NA", 0, [["NA", "Na"]]], ["CL", 0, [["CL", "Cl"]]], ["NA", 0, [["NA", "Na"]]]]
+    c = {"kind": "rdf_opt", "top": two, "unit": UNIT, "xyz": gen_xyz(rng, 2, 3, span=128), "box": [256, 256, 256],
+         "pairs": [[0, 1], [1, 2]]}
+    r = rng.random()
+    if r < 0.3:
+        c["r_range"] = None
+    elif r < 0.8:
+        a = rng.randint(0, 64)
+        b = a + rng.randint(1, 128)
+        c["r_range"] = [[a, 64], [b, 64]]
+        if rng.random() < 0.12:
+            c["r_range"] = [[b, 64], [a, 64]]                       # reversed
+        elif rng.random() < 0.08:
+            c["r_range"] = [[a, 64], [a, 64]]                       # empty range
+    else:
+        c["r_range"] = [[rng.randint(0, 64), 64] for _ in range(rng.choice([1, 3]))]
+    r = rng.random()
+    c["n_bins"] = None if r < 0.45 else rng.choice([1, 2, 3, 5, 8, 13, 0, -1, -4])
+    r = rng.random()
+    if r < 0.35:
+        c["bin_width"] = None
+    elif r < 0.7:
+        c["bin_width"] = [rng.randint(2, 200), 64]
+    else:
+        c["bin_width"] = list(float(rng.choice([0.05, 0.1, 0.2, 0.07, 0.125, 0.3, 2.5])).as_integer_ratio())
+    return c
+
+
+def check_rdf_opt(ctx, cases, results):
+    def oq(x):
+        return copt(x, cq)
+    inp = ["(%s, %s, %s)" % (copt(c["r_range"], lambda rr: clist([cq(x) for x in rr])), copt(c["n_bins"], cz), oq(c["bin_width"]))
+           for c in cases]
+    vals, errs = coq_values(ctx, ["MD.Desc.RdfModel", "MD.Desc.FrontModel"], "option (list Q) * option Z * option Q",
+                            "run_rdf_options", inp, shard=shard_for(len(inp), lo=30), prelude=QPRE)
+    if errs:
+        ctx.break_("correspondence:coqc-evaluation(rdf options)", "\n".join(errs))
+        return
+    for c, r, v in zip(cases, results, vals):
+        ctx.count(c, nontrivial=True, bucket="rdf_opt/%s" % ("n_bins" if c["n_bins"] is not None else
+                                                             ("bin_width" if c["bin_width"] is not None else "default-width")))
+        for name in ("rdf", "rdf_t"):
+            o = r[name]
+            if "err" in o:
+                got = next((-code for pat, code in RDF_ERR if re.search(pat, o["msg"])), None)
+                if got is None:
+                    ctx.fail("compute_%s raises an unexpected %s for these r_range/n_bins/bin_width" % (name, o["err"]), c,
+                             observed=o, expected=v, tags={"kind": "rdf_opt", "explained_by": None})
+                    continue
+                got = [got]
+            else:
+                got = [o["n"]]
+                if o["g_shape"][-1] != o["n"]:
+                    ctx.fail("compute_%s: r and g(r) have different numbers of bins" % name, c, observed=o, expected=v,
+                             tags={"kind": "rdf_opt", "explained_by": None})
+                    continue
+            if got != v[:1]:
+                # the known truncation of an integral quotient (0.3/0.1 -> 2) is part of the model (nbins_of_width)
+                ctx.fail("compute_%s: number of bins / refusal for these r_range, n_bins, bin_width differs from the model "
+                         "(n_bins given: it decides; omitted: int((r_max-r_min)/bin_width) with the defaults)" % name,
+                         c, observed=o, expected=v, tags={"kind": "rdf_opt", "explained_by": None})
+                continue
+            if "err" not in o and len(v) == 5:
+                lo, hi = Fraction(v[1], v[2]), Fraction(v[3], v[4])
+                n = v[0]
+                w = (hi - lo) / n
+                for kk in (0, n - 1):
+                    want = lo + (kk + Fraction(1, 2)) * w
+                    have = Fraction(*o["r"][kk])
+                    if abs(have - want) > Fraction(1, 10 ** 9):
+                        ctx.fail("compute_%s: bin centres are not those of n equal bins over the (defaulted / widened) range" % name,
+                                 c, observed=float(have), expected=float(want), tags={"kind": "rdf_opt", "explained_by": None})
+                        break
+
+
+def _pyv_coq(v):
+    if "int" in v:
+        return "(VInt %s)" % cz(v["int"])
+    if "list" in v:
+        return "(VSeq %s)" % clist([_pyv_coq(x) for x in v["list"]])
+    if "tuple" in v:
+        return "(VSeq %s)" % clist([_pyv_coq(x) for x in v["tuple"]])
+    return "VOther"
+
+
+def gen_order_opt_case(rng, i):
+    top = gen_topology(rng, rng.randint(2, 5), p_odd=0.2, p_drop=0.1)
+    while top_natoms(top) < 4 or min(len(r[2]) for r in top) < 1:
+        top = gen_topology(rng, rng.randint(2, 5), p_odd=0.2, p_drop=0.1)
+    na = top_natoms(top)
+    c = {"kind": "order_opt", "top": top, "unit": UNIT, "xyz": gen_xyz(rng, rng.randint(1, 2), na), "box": None}
+    r = rng.random()
+    if r < 0.1:
+        c["indices"] = {"omit": True}
+    elif r < 0.3:
+        c["indices"] = {"str": _case_variant(rng, rng.choice(["chains", "residues"]))}
+    elif r < 0.4:
+        c["indices"] = {"str": rng.choice(["atoms", "chain", "residue", "", "all", "molecules"])}
+    else:
+        def grp():
+            return {rng.choice(["list", "list", "tuple"]): [{"int": a} for a in sorted(rng.sample(range(na), rng.randint(1, min(na, 6))))]}
+        groups = [grp() for _ in range(rng.randint(1, 4))]
+        r2 = rng.random()
+        if r2 < 0.45:
+            pass
+        elif r2 < 0.7:      # a non-int inside a group
+            g = groups[rng.randrange(len(groups))]
+            key = "list" if "list" in g else "tuple"
+            g[key][rng.randrange(len(g[key]))] = rng.choice([{"float": 1.0}, {"npint": 1}, {"s": "1"}, {"none": 1},
+                                                             {"list": [{"int": 0}]}])
+        else:               # an element that is not a group
+            groups.insert(rng.randrange(len(groups) + 1), rng.choice([{"int": 0}, {"s": "chains"}, {"float": 2.0}, {"none": 1},
+                                                                      {"ndarray": [0, 1, 2]}]))
+        outer = rng.choice(["list", "tuple"])
+        c["indices"] = {"val": {outer: groups}}
+        if rng.random() < 0.08:
+            c["indices"] = {"val": rng.choice([{"int": 3}, {"none": 1}, {"ndarray": [[0, 1, 2], [1, 2, 3]]}, {"float": 0.5}])}
+    return c
+
+
+def check_order_opt(ctx, cases, results):
+    inp = []
+    for c in cases:
+        sp = c["indices"]
+        x = "None" if "omit" in sp else ("(Some (XStr %s))" % cstr(sp["str"]) if "str" in sp else "(Some (XVal %s))" % _pyv_coq(sp["val"]))
+        inp.append("(%s, %s)" % (c_raw_rows(c["top"]), x))
+    vals, errs = coq_values(ctx, ["MD.Desc.OrderModel", "MD.Desc.FrontModel"], "list rawres * option ispec", "run_get_indices", inp,
+                            shard=shard_for(len(inp), lo=24))
+    if errs:
+        ctx.break_("correspondence:coqc-evaluation(order indices)", "\n".join(errs))
+        return
+    for c, r, v in zip(cases, results, vals):
+        sp = c["indices"]
+        ctx.count(c, nontrivial=True, bucket="order_opt/%s" % ("omitted" if "omit" in sp else ("keyword" if "str" in sp else "explicit")))
+        refused = len(v) == 1 and len(v[0]) == 1 and v[0][0] < 0
+        for fn, ek, sk in (("compute_directors", "directors_err", "directors_shape"), ("compute_nematic_order", "s2_err", "s2_shape")):
+            if refused:
+                want = {1: r"Invalid selection", 2: r"Indices must be integers"}[-v[0][0]]
+                if ek not in r or r[ek]["err"] != "ValueError" or not re.search(want, r[ek]["msg"]):
+                    ctx.fail("%s: an indices argument that is not a keyword / list of lists of ints is not refused as documented" % fn,
+                             c, observed=r.get(ek, r.get(sk)), expected=want, tags={"kind": "order_opt", "explained_by": None})
+            else:
+                ng = v[0][0]
+                if ek in r:
+                    # an explicit group may be unusable for the eigen-decomposition; only keyword/omitted must succeed
+                    if "val" not in sp:
+                        ctx.fail("%s fails for a keyword / omitted indices argument" % fn, c, observed=r[ek], expected="result",
+                                 tags={"kind": "order_opt", "explained_by": None})
+                elif fn == "compute_directors" and r[sk] != [len(c["xyz"]), ng, 3]:
+                    ctx.fail("compute_directors: number of groups differs from the chains/residues/index lists", c, observed=r[sk],
+                             expected=[len(c["xyz"]), ng, 3], tags={"kind": "order_opt", "explained_by": None})
+        if not refused and "omit" not in sp and r.get("groups") is not None and r["groups"] != v[1:]:
+            ctx.fail("order._get_indices: the atom groups differ from the chains / residues / given lists", c, observed=r["groups"],
+                     expected=v[1:], tags={"kind": "order_opt", "explained_by": None})
+
+
+def gen_dipole_pbc_case(rng, i):
+    top = gen_topology(rng, rng.randint(2, 5), p_odd=0.4, p_drop=0.2)
+    na = top_natoms(top)
+    nf = rng.randint(1, 3)
+    c = {"kind": "dipole_pbc", "top": top, "unit": UNIT, "xyz": gen_xyz(rng, nf, na, span=256)}
+    # odd cell lengths (in 1/64 nm): no displacement can sit exactly on +-L/2; smaller than the coordinate span, so
+    # displacements wrap; per-frame cells
+    c["box"] = [[2 * rng.randint(40, 130) + 1 for _ in range(3)] for _ in range(nf)] if i % 5 else None
+    q = [rng.randint(-16, 16) for _ in range(na)]
+    if rng.random() < 0.5:
+        q[-1] -= sum(q)
+    c["charges"] = [[x, 16] for x in q]
+    return c
+
+
+def check_dipole_pbc(ctx, cases, results):
+    inp = []
+    for c in cases:
+        boxes = c["box"] or [None] * len(c["xyz"])
+        inp.append("(%s, %s, %s)" % (c_raw_top(c["top"]), clist([cz(x[0]) for x in c["charges"]]),
+                                    clist(["(%s, %s)" % ("None" if b is None else "(Some %s)" % c_vec(b), clist([c_vec(v) for v in f]))
+                                           for b, f in zip(boxes, c["xyz"])])))
+    vals, errs = coq_values(ctx, ["MD.Desc.ContactsModel", "MD.Desc.DipoleModel"], "dcase", "run_dipole", inp,
+                            shard=shard_for(len(inp), lo=10))
+    if errs:
+        ctx.break_("correspondence:coqc-evaluation(dipole pbc)", "\n".join(errs))
+        return
+    for c, r, v in zip(cases, results, vals):
+        ctx.count(c, nontrivial=len(c["top"]) > 1, bucket="dipole_pbc/%s" % ("cell" if c["box"] else "no-cell"))
+        mu = r["mu"]
+        if isinstance(mu, dict) or not finite(mu):
+            ctx.fail("dipole_moments fails", c, observed=mu, expected="finite", tags={"kind": "dipole_pbc", "explained_by": None})
+            continue
+        for fi, want in enumerate(v):
+            got = [Fraction(*mu[fi][k]) * c["unit"] * 16 for k in range(3)]
+            if any(abs(g - w) > Fraction(1, 1000) for g, w in zip(got, want)):
+                ctx.fail("dipole_moments (periodic cell): result is not sum_a q_a (mic(r_a - r_first(residue a)) + "
+                         "mic(r_first(residue a) - r_0))", c, observed=[float(g) for g in got], expected=want,
+                         tags={"kind": "dipole_pbc", "frame": fi, "explained_by": None})
+                break
+
+
+# =====================================================================================
 # call histories on ONE Trajectory/Topology object
 # =====================================================================================
 def _names_for_rename(rng):
@@ -1963,7 +2607,9 @@ def check_history(ctx, cases, results):
 CHECKS = {"contacts": check_contacts, "squareform": check_squareform, "centres": check_centres, "rg": check_rg,
           "shape": check_shape, "density": check_density, "rdf": check_rdf, "drid": check_drid,
           "karplus": check_karplus, "dipole": check_dipole, "inertia": check_inertia, "order": check_order,
-          "rdf_t": check_rdf_t, "history": check_history}
+          "rdf_t": check_rdf_t, "history": check_history, "contacts_opt": check_contacts_opt,
+          "squareform_opt": check_squareform_opt, "rdf_opt": check_rdf_opt, "order_opt": check_order_opt,
+          "dipole_pbc": check_dipole_pbc}
 
 
 def fixed_probes():
@@ -2041,6 +2687,11 @@ def build_cases(ctx):
     cases += [gen_order_case(rng, i) for i in range(15 * k)]
     cases += [gen_rdf_t_case(rng, i) for i in range(24 * k)]
     cases += [gen_history_case(rng, i) for i in range((16 if quick else 10) * k)]
+    cases += [gen_contacts_opt_case(rng, i) for i in range(48 * k)]
+    cases += [gen_squareform_opt_case(rng, i) for i in range(30 * k)]
+    cases += [gen_rdf_opt_case(rng, i) for i in range(30 * k)]
+    cases += [gen_order_opt_case(rng, i) for i in range(24 * k)]
+    cases += [gen_dipole_pbc_case(rng, i) for i in range(20 * k)]
     return cases
 
 
